@@ -36,6 +36,7 @@ class Subject:
     attrs = ()                 # summary attributes read as queries
     deny = ()                  # extra methods excluded from reflection
     max_patterns = 4
+    str_tail = False           # compare str() without its first line
 
     def gen(self, rng, small=True):
         raise NotImplementedError
@@ -58,6 +59,10 @@ class Subject:
             qs.append((label, (lambda o, n=n, kw=kw: getattr(o, n)(**kw))))
         for a in self.attrs:
             qs.append((f"attr:{a}", (lambda o, a=a: getattr(o, a))))
+        # the printed summary (class, sizes, settings) is a query like any
+        # other: it describes the object as it is now
+        qs.append(("attr:str()", (lambda o: str(o)) if not self.str_tail
+                   else (lambda o: str(o).split("\n", 1)[-1])))
         qs += self.extra_queries(obj, m)
         return qs
 
@@ -635,6 +640,10 @@ class JointRecurrenceNetworkS(JointRecurrencePlotS):
 
 
 class CrossRecurrencePlotS(Subject):
+    # (the first line of the summary gives the shapes of the series the
+    #  object was built from; the mutators of this subject assign embedded
+    #  series directly, which the model represents as other series)
+    str_tail = True
     name = "CrossRecurrencePlot"
     attrs = ("N", "M", "CR")
     deny = RecurrencePlotS.deny
